@@ -123,11 +123,11 @@ class CaseContract(Contract):
             _CANARY[0] = False
 
 
-def choose(ctx, name, options):
+def choose(ctx, name, options, cost=None):
     """Fork over a finite list of alternatives (decision recorded in the integer `name` for counter-model replay)."""
     v = ctx.fresh(name, "int")
     if _CANARY[0]:
-        options = options[:2]
+        options = sorted(options, key=cost)[:2] if cost else options[:2]
     n = len(options)
     for i in range(n - 1):
         if ctx.branch(v.t == i):
@@ -197,7 +197,7 @@ def bin_setup(d, inplace):
         o = ds_obj(ctx, d)
         si, scenario = choose(ctx, "scenario", BIN_SCENARIOS if d <= 2 else ["normal"])
         if scenario == "normal":
-            ai, (aform, axes, denoted) = choose(ctx, "axes_opt", aopts)
+            ai, (aform, axes, denoted) = choose(ctx, "axes_opt", aopts, cost=_axes_cost)
             fi, fform = choose(ctx, "factor_form", ["tuple", "scalar"] if scalar_ok(aform, axes) else ["tuple"])
             ri, reducer = choose(ctx, "reducer_opt", ["sum", "mean"])
         else:
@@ -312,7 +312,7 @@ def bin_contract(d, inplace):
     return c
 
 
-NEG_OPTS = [(d, o, ip) for d in (1, 2, 3, 4) for o in axes_options(d)[-2:] for ip in (False, True)]
+NEG_OPTS = [(d, o, (d + k) % 2 == 0) for d in (1, 2, 3, 4) for k, o in enumerate(axes_options(d)[-2:])]
 
 
 def bin_neg_setup(ctx):
@@ -588,13 +588,29 @@ def fr_axes_options(d):
     return opts
 
 
+def _axes_cost(o):
+    return 3 ** len(o[2]) if o[2] else 100
+
+
+def _shard(opts, shard, nshards):
+    """Greedy balance of the axis selections over `nshards` contracts (weight = number of length-relation patterns)."""
+    if nshards == 1:
+        return list(opts)
+    bins = [[0, []] for _ in range(nshards)]
+    for o in sorted(opts, key=lambda o: -(3 ** len(o[2]))):
+        b = min(bins, key=lambda b: b[0])
+        b[0] += 3 ** len(o[2])
+        b[1].append(o)
+    return bins[shard][1]
+
+
 def fr_setup(d, layer, shard=0, nshards=1):
     """layer 'axes': every axis selection, out_shape form, copying form (the length relations are explored by the code's own
     branches; real / complex input alternates with the selection from 3-D on);
     layer 'forms': argument forms (factors scalar / tuple, out_shape, in-place) and the error cases; 1-D: on every selection,
     2-D: None, reversed tuple, int; 3-D/4-D: all forms on a single int axis, in-place out_shape on all axes."""
     if layer == "axes":
-        aopts = [o for k, o in enumerate(fr_axes_options(d)) if k % nshards == shard]
+        aopts = fr_axes_options(d)
     else:
         full = axes_options(d, negative=False)
         if d == 1:
@@ -603,15 +619,16 @@ def fr_setup(d, layer, shard=0, nshards=1):
             aopts = [full[0], [o for o in full if o[1] == (1, 0)][0], [o for o in full if o[0] == "int"][-1]]
         else:
             aopts = [[o for o in full if o[0] == "int"][-1], full[0]]
+    aopts = _shard(aopts, shard, nshards)
 
     def setup(ctx):
         if layer == "axes":
             scenario, form, inplace = "normal", "out_shape", False
-            ai, (aform, axes, denoted) = choose(ctx, "axes_opt", aopts)
+            ai, (aform, axes, denoted) = choose(ctx, "axes_opt", aopts, cost=_axes_cost)
             is_real = ((ai + shard) % 2 == 0) if d >= 3 else choose(ctx, "real_opt", [True, False])[1]
         else:
             si, scenario = choose(ctx, "scenario", FR_SCENARIOS if d <= 2 else ["normal"])
-            ai, (aform, axes, denoted) = choose(ctx, "axes_opt", aopts if scenario == "normal" else aopts[:1])
+            ai, (aform, axes, denoted) = choose(ctx, "axes_opt", aopts if scenario == "normal" else aopts[:1], cost=_axes_cost)
             if scenario == "normal":
                 forms = FR_FORMS if (d <= 2 or aform == "int") else FR_FORMS[2:3]
                 fi, (form, inplace) = choose(ctx, "form_opt", forms)
@@ -670,6 +687,8 @@ def fr_ensures(s):
         m_of = {a: lift(c.ms[k]) for k, a in enumerate(A)}
         shape_ok = AND(*[lift(arr.shape[i]) == (m_of[i] if i in m_of else n[i]) for i in range(d)])
         out.append((L("shape: selected axes get the requested length, the others keep theirs"), shape_ok))
+        if c.scenario == "negative-axis" and not s.ctx.entails(shape_ok):
+            return out  # the remaining clauses are only meaningful where the shape is right (keeps the finding narrow)
     else:
         m_of = {a: lift(arr.shape[a]) for a in A}
         cl = []
@@ -742,8 +761,8 @@ def fr_contract(d, layer, shard=0, nshards=1):
     return c
 
 
-FR_CONTRACTS = ([fr_contract(4, "axes", k, 4) for k in range(4)] + [fr_contract(3, "axes", k, 2) for k in range(2)] + [fr_contract(4, "forms"), fr_contract(3, "forms")]
-                + [fr_contract(d, layer) for d in (2, 1) for layer in ("axes", "forms")])
+FR_CONTRACTS = ([fr_contract(4, "axes", k, 5) for k in range(5)] + [fr_contract(4, "forms", k, 2) for k in range(2)] + [fr_contract(2, "forms", k, 2) for k in range(2)]
+                + [fr_contract(3, "axes", k, 2) for k in range(2)] + [fr_contract(3, "forms"), fr_contract(2, "axes"), fr_contract(1, "axes"), fr_contract(1, "forms")])
 
 
 # ------------------------------------------------------------------------------------------------
@@ -847,13 +866,13 @@ def pad_contract(d):
                         max_paths=4000, note=f"{d}-D")
 
 
-def crop_setup(d):
+def crop_setup(d, only_inplace=None):
     aopts = axes_options(d, negative=False)
 
     def setup(ctx):
         si, sc = choose(ctx, "scenario", ["normal", "length-mismatch-none", "length-mismatch-axes"] if d <= 2 else ["normal"])
-        ai, (aform, axes, denoted) = choose(ctx, "axes_opt", aopts) if sc == "normal" else (0, aopts[0] if sc.endswith("none") else aopts[1])
-        ii, inplace = choose(ctx, "inplace_opt", [False, True])
+        ai, (aform, axes, denoted) = choose(ctx, "axes_opt", aopts, cost=_axes_cost) if sc == "normal" else (0, aopts[0] if sc.endswith("none") else aopts[1])
+        ii, inplace = choose(ctx, "inplace_opt", [False, True] if only_inplace is None else [only_inplace])
         o = ds_obj(ctx, d)
         n = [lift(x) for x in o.fields["_array"].shape]
         k = len(denoted)
@@ -895,8 +914,10 @@ def crop_ensures(s):
     n = [lift(x) for x in s.old.shape]
     lo = [c.stop[i][0] if i in c.stop else z3.IntVal(0) for i in range(d)]
     hi = [c.stop[i][1] if i in c.stop else n[i] for i in range(d)]
-    out.append((L("shape: max - min on cropped axes (max <= 0 counted from the end), the others keep theirs"),
-                AND(*[lift(arr.shape[i]) == hi[i] - lo[i] for i in range(d)])))
+    shape_ok = AND(*[lift(arr.shape[i]) == hi[i] - lo[i] for i in range(d)])
+    out.append((L("shape: max - min on cropped axes (max <= 0 counted from the end), the others keep theirs"), shape_ok))
+    if c.scenario == "negative-axis" and not s.ctx.entails(shape_ok):
+        return out
     j = [I(f"j{i}") for i in range(d)]
     inr = AND(*[AND(j[i] >= 0, j[i] < hi[i] - lo[i]) for i in range(d)])
     out.append((L("out[j] = in[min + j]"), implies(inr, lift(S(arr.fn(*j))) == lift(S(s.old.afn(*[lo[i] + j[i] for i in range(d)]))))))
@@ -904,17 +925,709 @@ def crop_ensures(s):
     return out
 
 
-def crop_contract(d):
-    return CaseContract(f"{DS}:Dataset.crop", setup=crop_setup(d), ensures=crop_ensures, snapshot=snap,
-                        raises={ValueError: lambda s: s.cfg.scenario != "normal"}, max_paths=4000, note=f"{d}-D")
+def crop_contract(d, only_inplace=None):
+    return CaseContract(f"{DS}:Dataset.crop", setup=crop_setup(d, only_inplace), ensures=crop_ensures, snapshot=snap,
+                        raises={ValueError: lambda s: s.cfg.scenario != "normal"}, max_paths=4000,
+                        note=f"{d}-D" + ("" if only_inplace is None else f", modify_in_place={only_inplace}"))
 
 
 PAD_CONTRACTS = [pad_contract(d) for d in (4, 3, 2, 1)]
-CROP_CONTRACTS = [crop_contract(d) for d in (4, 3, 2, 1)]
+CROP_CONTRACTS = [crop_contract(4, False), crop_contract(4, True)] + [crop_contract(d) for d in (3, 2, 1)]
 
-CONTRACTS = FR_CONTRACTS + list(reversed(BIN_CONTRACTS)) + PAD_CONTRACTS + CROP_CONTRACTS + [C_BIN_NEG]
-LEMMAS = []
-BOUNDED = []
-TRUSTED = []
-ASSUMPTIONS = []
-EXPLANATION = ""
+
+# ------------------------------------------------------------------------------------------------
+# run-time oracles for resample / pad / crop (replay of counter-models, bounded stand-ins)
+# ------------------------------------------------------------------------------------------------
+
+
+def _dft_matrix(n, sign):
+    import numpy as np
+
+    k = np.arange(n)
+    return np.exp(sign * 2j * np.pi * np.outer(k, k) / n)
+
+
+def _apply_axis(mat, x, axis):
+    import numpy as np
+
+    return np.moveaxis(np.tensordot(mat, x, axes=([1], [axis])), 0, axis)
+
+
+def _resample_oracle(a, denoted, out_lens):
+    """The contract's statement evaluated in complex128 with explicit DFT matrices (no fft / fftshift call):
+    out = prod(m)/prod(n) * IDFT( bins placed by SIGNED frequency )."""
+    import numpy as np
+
+    x = a.astype(np.complex128)
+    for ax, m in zip(denoted, out_lens):
+        n = x.shape[ax]
+        G = _apply_axis(_dft_matrix(n, -1), x, ax)
+        shp = list(x.shape)
+        shp[ax] = m
+        H = np.zeros(shp, dtype=np.complex128)
+        for nu in range(-(m // 2), m - m // 2):
+            if -(n // 2) <= nu < n - n // 2:
+                src = [slice(None)] * x.ndim
+                dst = [slice(None)] * x.ndim
+                src[ax], dst[ax] = nu % n, nu % m
+                H[tuple(dst)] = G[tuple(src)]
+        x = _apply_axis(_dft_matrix(m, +1), H, ax) / m * (m / n)
+    return x.real if a.dtype.kind != "c" else x
+
+
+def rt_resample(inp):
+    import numpy as np
+
+    ds, a, origin, sampling = _mk_dataset(inp)
+    d = a.ndim
+    axes = inp.get("axes")
+    axes_arg = tuple(axes) if isinstance(axes, list) else axes
+    denoted = _norm_axes(axes_arg, d)
+    out_shape, factors = inp.get("out_shape"), inp.get("factors")
+    os_arg = tuple(out_shape) if isinstance(out_shape, list) else out_shape
+    f_arg = tuple(factors) if isinstance(factors, list) else factors
+    inplace = bool(inp.get("inplace", False))
+    exp_exc = None
+    if (os_arg is None) == (f_arg is None):
+        exp_exc = ValueError
+    elif os_arg is not None and (len(os_arg) != len(denoted) or any(m < 1 for m in os_arg)):
+        exp_exc = ValueError
+    elif isinstance(f_arg, tuple) and len(f_arg) != len(denoted):
+        exp_exc = ValueError
+    ids = (ds.array,)
+    try:
+        res = ds.fourier_resample(out_shape=os_arg, factors=f_arg, axes=axes_arg, modify_in_place=inplace)
+    except Exception as e:
+        ok = exp_exc is not None and isinstance(e, exp_exc)
+        return dict(violated=not ok, observed=f"raised {type(e).__name__}: {e}", expected=exp_exc.__name__ if exp_exc else "no exception")
+    if exp_exc is not None:
+        return dict(violated=True, observed="returned normally", expected=f"raise {exp_exc.__name__}")
+    pr = []
+    if inplace:
+        if res is not None:
+            pr.append("in-place form returned a value")
+        out = ds
+        pr += _frame_problems(ds, a, origin, sampling, ids, ("array", "meta"))
+    else:
+        out = res
+        if out is None or out is ds or type(out) is not type(ds):
+            return dict(violated=True, observed=f"returned {type(out).__name__}", expected="a new Dataset")
+        pr += _frame_problems(ds, a, origin, sampling, ids, ())
+    if os_arg is not None:
+        ms = [int(m) for m in os_arg]
+    else:
+        fl = list(f_arg) if isinstance(f_arg, tuple) else [f_arg] * len(denoted)
+        ms = [out.array.shape[ax] for ax in denoted]
+        for ax, f, m in zip(denoted, fl, ms):
+            if not (m >= 1 and (abs(m - a.shape[ax] * f) <= 0.5 + 1e-9 or (m == 1 and a.shape[ax] * f <= 0.5 + 1e-9))):
+                pr.append(f"axis {ax}: length {m} is not max(1, round({a.shape[ax]}*{f}))")
+    exp_shape = list(a.shape)
+    for ax, m in zip(denoted, ms):
+        exp_shape[ax] = m
+    got = np.asarray(out.array)
+    tol = _tol(a.dtype if a.dtype.kind in "fc" else np.float64, float(np.abs(_wide(a)).max()) if a.size else 1.0, 64)
+    if tuple(got.shape) != tuple(exp_shape):
+        pr.append(f"shape {tuple(got.shape)} != {tuple(exp_shape)}")
+    else:
+        want = _resample_oracle(a, denoted, ms)
+        err = float(np.abs(got - want).max())
+        if err > tol:
+            pr.append(f"differs from the signed-frequency placement oracle by {err:.3g} (tol {tol:.3g})")
+        if abs(complex(got.mean()) - complex(_wide(a).mean())) > tol:
+            pr.append(f"mean {got.mean()} != input mean {_wide(a).mean()}")
+        if a.dtype.kind != "c" and got.dtype.kind == "c":
+            pr.append("real input gave a complex result")
+        if tuple(exp_shape) == tuple(a.shape) and float(np.abs(got - _wide(a)).max()) > tol:
+            pr.append("same shape requested but the data changed")
+    for i in range(d):
+        if i in denoted:
+            m, n = exp_shape[i], a.shape[i]
+            if not np.isclose(m * out.sampling[i], n * sampling[i], rtol=1e-10, atol=1e-12):
+                pr.append(f"extent axis {i}: {m}*{out.sampling[i]} != {n}*{sampling[i]}")
+            if not np.isclose(out.origin[i] + (m - 1) / 2 * out.sampling[i], origin[i] + (n - 1) / 2 * sampling[i], rtol=1e-10, atol=1e-10):
+                pr.append(f"centre axis {i}: {out.origin[i] + (m - 1) / 2 * out.sampling[i]} != {origin[i] + (n - 1) / 2 * sampling[i]}")
+        elif not (np.isclose(out.sampling[i], sampling[i]) and np.isclose(out.origin[i], origin[i])):
+            pr.append(f"axis {i} not selected but origin/sampling changed")
+    return dict(violated=bool(pr), observed="; ".join(pr[:4]) or "ok",
+                expected="(N_out/N_in) * [Re] IDFT of the spectrum placed by signed frequency; mean, centre, extent preserved; identity for equal shape; self untouched unless in place")
+
+
+def _resample_lens(n):
+    return sorted({1, 2, max(1, n - 3), max(1, n - 1), n, n + 1, n + 2, 2 * n, 2 * n + 1})
+
+
+def fam_resample_small(negative=False):
+    import itertools as it
+
+    for shape in ([1], [4], [5], [4, 5], [5, 6], [3, 4, 5], [2, 3, 4, 5]):
+        d = len(shape)
+        opts = axes_options(d)[-2:] if negative else axes_options(d, negative=False)
+        for k, (form, axes, denoted) in enumerate(opts):
+            choices = [_resample_lens(shape[ax]) for ax in denoted]
+            combos = list(it.product(*choices)) if d <= 2 else [tuple(c[(k + 3 * q + j) % len(c)] for q, c in enumerate(choices)) for j in range(4)]
+            for j, ms in enumerate(combos):
+                yield dict(shape=shape, dtype="float64" if (j + k) % 2 == 0 else "complex128", axes=list(axes) if isinstance(axes, tuple) else axes,
+                           out_shape=list(ms), factors=None, inplace=(j + k) % 3 == 0, seed=5 + j)
+    if negative:
+        return
+    for f in (0.5, 1.0, 1.5, 2.0, 0.3, 0.01):
+        yield dict(shape=[5, 6], dtype="float64", axes=None, out_shape=None, factors=f, inplace=False, seed=2)
+        yield dict(shape=[5, 6], dtype="float64", axes=[1], out_shape=None, factors=[f], inplace=True, seed=2)
+    yield dict(shape=[4], dtype="float64", axes=None, out_shape=[0], factors=None, inplace=False, seed=1)
+    yield dict(shape=[4], dtype="float64", axes=None, out_shape=[3], factors=[0.5], inplace=False, seed=1)
+    yield dict(shape=[4], dtype="float64", axes=None, out_shape=None, factors=None, inplace=False, seed=1)
+    yield dict(shape=[4, 4], dtype="float64", axes=None, out_shape=[3], factors=None, inplace=False, seed=1)
+
+
+def fr_conc(setup):
+    def conc(ev):
+        aopts = setup.aopts
+        k = ev("axes_opt", 0)
+        if not (0 <= k < len(aopts)):
+            return None
+        form, axes, denoted = aopts[k]
+        d = setup.d
+        shape = [ev(f"n{i}", 3) for i in range(d)]
+        ms = [ev(f"m{q}") for q in range(len(denoted))]
+        if any(m is None for m in ms) or any(not (1 <= n <= 24) for n in shape) or any(not (-3 <= m <= 48) for m in ms):
+            return None
+        if ev("scenario", 0) != 0:
+            return None
+        return dict(shape=shape, dtype="float64" if ev("real_opt", 0) == 0 else "complex128", axes=list(axes) if isinstance(axes, tuple) else axes,
+                    out_shape=ms, factors=None, inplace=False, seed=1)
+
+    return conc
+
+
+def rt_pad_crop(inp):
+    """pad (any form) on the real code against the statement; then crop((before, -after)) must return the original."""
+    import numpy as np
+
+    ds, a, origin, sampling = _mk_dataset(inp)
+    d = a.ndim
+    pw, osh = inp.get("pad_width"), inp.get("output_shape")
+    kw = dict(inp.get("kwargs") or {})
+    inplace = bool(inp.get("inplace", False))
+
+    def tup(x):
+        return tuple(tup(e) for e in x) if isinstance(x, list) else x
+
+    pw_arg, os_arg = tup(pw), tup(osh)
+    exp_exc = None
+    if (pw_arg is None) == (os_arg is None):
+        exp_exc = ValueError
+    elif os_arg is not None and len(os_arg) != d:
+        exp_exc = ValueError
+    if exp_exc is None:
+        if os_arg is not None:
+            W = [(max(0, (M - n) // 2), max(0, -((n - M) // 2))) for M, n in zip(os_arg, a.shape)]
+        elif isinstance(pw_arg, int):
+            W = [(pw_arg, pw_arg)] * d
+        elif isinstance(pw_arg[0], int):
+            W = [tuple(pw_arg)] * d
+        else:
+            W = [tuple(p) for p in pw_arg]
+        if any(b < 0 or x < 0 for b, x in W):
+            exp_exc = ValueError
+    ids = (ds.array,)
+    try:
+        res = ds.pad(pad_width=pw_arg, output_shape=os_arg, modify_in_place=inplace, **kw)
+    except Exception as e:
+        ok = exp_exc is not None and isinstance(e, exp_exc)
+        return dict(violated=not ok, observed=f"raised {type(e).__name__}: {e}", expected=exp_exc.__name__ if exp_exc else "no exception")
+    if exp_exc is not None:
+        return dict(violated=True, observed="returned normally", expected=f"raise {exp_exc.__name__}")
+    pr = []
+    out = ds if inplace else res
+    if inplace and res is not None:
+        pr.append("in-place form returned a value")
+    if not inplace:
+        if out is None or out is ds:
+            return dict(violated=True, observed="no new dataset", expected="a new Dataset")
+        pr += _frame_problems(ds, a, origin, sampling, ids, ())
+    got = np.asarray(out.array)
+    exp_shape = tuple(n + b + x for n, (b, x) in zip(a.shape, W))
+    if got.shape != exp_shape:
+        pr.append(f"padded shape {got.shape} != {exp_shape} (n + floor/ceil split)")
+    else:
+        inner = tuple(slice(b, b + n) for n, (b, x) in zip(a.shape, W))
+        if not np.array_equal(got[inner], a):
+            pr.append("interior of the padded array differs from the input")
+        if not kw:
+            mask = np.ones(got.shape, bool)
+            mask[inner] = False
+            if got[mask].any():
+                pr.append("border is not zero in the default mode")
+        if got.dtype != a.dtype:
+            pr.append(f"dtype changed {a.dtype} -> {got.dtype}")
+    if not (np.array_equal(out.origin, origin) and np.array_equal(out.sampling, sampling)):
+        pr.append("pad changed origin/sampling")
+    if not pr:
+        cw = tuple((b, -x) for b, x in W)
+        if inp.get("crop_inplace"):
+            back = out
+            r2 = back.crop(cw, modify_in_place=True)
+            if r2 is not None:
+                pr.append("in-place crop returned a value")
+        else:
+            back = out.crop(cw)
+            if not np.array_equal(out.array, got):
+                pr.append("copying crop modified its input")
+        if back.array.shape != a.shape or not np.array_equal(back.array, a) or back.array.dtype != a.dtype:
+            pr.append(f"pad -> crop(pad widths) does not return the original: shape {back.array.shape} vs {a.shape}")
+        if not (np.array_equal(back.origin, origin) and np.array_equal(back.sampling, sampling)):
+            pr.append("pad -> crop changed origin/sampling")
+    return dict(violated=bool(pr), observed="; ".join(pr[:4]) or "ok",
+                expected="padded = zeros/border + input at offset floor((M-n)/2); cropping (before, -after) returns the original data, dtype, origin, sampling")
+
+
+def fam_pad_crop(tier="quick", seed=0):
+    import itertools as it
+
+    dtypes = ["float64", "uint8", "int16", "int32", "float32", "complex64", "complex128", "bool"]
+    k = 0
+    for shape in ([1], [4], [5], [3, 4], [4, 5], [2, 3, 4], [2, 3, 2, 3]):
+        d = len(shape)
+        deltas = list(it.product(*[(-2, 0, 1, 2, 3)] * d)) if d <= 2 else [tuple((q * 7 + j) % 5 - 1 for q in range(d)) for j in range(8)]
+        for dl in deltas:
+            k += 1
+            kw = {} if k % 3 else {"mode": "edge"} if k % 2 else {"mode": "reflect"}
+            if kw.get("mode") == "reflect" and any(n < 2 for n in shape):
+                kw = {}
+            yield dict(shape=shape, dtype=dtypes[k % len(dtypes)], output_shape=[n + x for n, x in zip(shape, dl)], pad_width=None, kwargs=kw,
+                       inplace=k % 2 == 0, crop_inplace=k % 4 < 2, seed=seed + k)
+        yield dict(shape=shape, dtype=dtypes[k % len(dtypes)], output_shape=None, pad_width=2, kwargs={}, inplace=False, seed=seed)
+        yield dict(shape=shape, dtype="float64", output_shape=None, pad_width=[1, 3], kwargs={}, inplace=True, seed=seed)
+        yield dict(shape=shape, dtype="int32", output_shape=None, pad_width=[[q, q + 1] for q in range(d)], kwargs={}, inplace=False, seed=seed)
+    yield dict(shape=[4], dtype="float64", output_shape=[6], pad_width=1, kwargs={}, inplace=False, seed=0)
+    yield dict(shape=[4], dtype="float64", output_shape=None, pad_width=None, kwargs={}, inplace=False, seed=0)
+    yield dict(shape=[4, 4], dtype="float64", output_shape=[6], pad_width=None, kwargs={}, inplace=False, seed=0)
+    yield dict(shape=[4], dtype="float64", output_shape=None, pad_width=-1, kwargs={}, inplace=False, seed=0)
+
+
+def rt_crop(inp):
+    import numpy as np
+
+    ds, a, origin, sampling = _mk_dataset(inp)
+    d = a.ndim
+    axes = inp.get("axes")
+    axes_arg = tuple(axes) if isinstance(axes, list) else axes
+    denoted = _norm_axes(axes_arg, d)
+    cw = tuple(tuple(p) for p in inp["crop_widths"])
+    inplace = bool(inp.get("inplace", False))
+    n_needed = d if axes_arg is None else (1 if isinstance(axes_arg, int) else len(denoted))
+    exp_exc = ValueError if (len(cw) != n_needed and not isinstance(axes_arg, int)) else None
+    try:
+        res = ds.crop(cw, axes=axes_arg, modify_in_place=inplace)
+    except Exception as e:
+        ok = exp_exc is not None and isinstance(e, exp_exc)
+        return dict(violated=not ok, observed=f"raised {type(e).__name__}: {e}", expected=exp_exc.__name__ if exp_exc else "no exception")
+    if exp_exc is not None:
+        return dict(violated=True, observed="returned normally", expected=f"raise {exp_exc.__name__}")
+    out = ds if inplace else res
+    sl = [slice(None)] * d
+    for q, ax in enumerate(denoted):
+        lo, hi = cw[q]
+        sl[ax] = slice(lo, hi if hi > 0 else a.shape[ax] + hi)
+    want = a[tuple(sl)]
+    pr = []
+    if np.asarray(out.array).shape != want.shape or not np.array_equal(out.array, want):
+        pr.append(f"cropped shape {np.asarray(out.array).shape} / data differ from in[min:max] = {want.shape}")
+    if not inplace and (not np.array_equal(ds.array, a)):
+        pr.append("copying crop modified self")
+    return dict(violated=bool(pr), observed="; ".join(pr) or "ok", expected="out = in[min:max] on the cropped axes (max <= 0 counted from the end)")
+
+
+def fam_crop(negative=False):
+    for shape in ([5], [4, 6], [3, 4, 5], [2, 3, 4, 5]):
+        d = len(shape)
+        opts = axes_options(d)[-2:] if negative else axes_options(d, negative=False)
+        for k, (form, axes, denoted) in enumerate(opts):
+            for (lo, back) in ((0, 0), (1, 0), (1, -1), (0, -2), (1, 2)):
+                cw = [[min(lo, shape[ax]), (back if back <= 0 else min(shape[ax], lo + back))] for ax in denoted]
+                if form == "int" or (form == "negative" and isinstance(axes, int)):
+                    cw = cw + [[0, 0]]
+                yield dict(shape=shape, dtype="float64", axes=list(axes) if isinstance(axes, tuple) else axes, crop_widths=cw, inplace=(k + lo) % 2 == 0, seed=k)
+
+
+def conc_pad(d):
+    def conc(ev):
+        sc = PAD_SCENARIOS[ev("scenario", 0)]
+        shape = [ev(f"n{i}", 2) for i in range(d)]
+        if any(not (0 <= n <= 12) for n in shape):
+            return None
+        inp = dict(shape=shape, dtype="float64", output_shape=None, pad_width=None, kwargs={"mode": "edge"} if sc.endswith("-edge") else {},
+                   inplace=ev("inplace_opt", 0) == 1, seed=1)
+        if sc.startswith("output_shape") or sc in ("both-given", "length-mismatch"):
+            inp["output_shape"] = [ev(f"M{i}", 3) for i in range(d)] + ([1] if sc == "length-mismatch" else [])
+        if sc in ("width-int", "both-given"):
+            inp["pad_width"] = ev("w", 1)
+        if sc == "width-pair":
+            inp["pad_width"] = [ev("b", 1), ev("a", 1)]
+        if sc.startswith("width-per-axis"):
+            inp["pad_width"] = [[ev(f"b{i}", 1), ev(f"a{i}", 1)] for i in range(d)]
+        flat = [x for x in (inp["output_shape"] or []) + ([inp["pad_width"]] if isinstance(inp["pad_width"], int) else [])]
+        if any(abs(x) > 40 for x in flat):
+            return None
+        if "edge" in str(inp["kwargs"]) and any(n == 0 for n in shape):
+            return None
+        return inp
+
+    return conc
+
+
+for _c in FR_CONTRACTS:
+    _c.setup.d = int(_c.note[0])
+    _c.concretize, _c.rt, _c.rt_family = fr_conc(_c.setup), rt_resample, fam_resample_small
+for _c in PAD_CONTRACTS:
+    _c.concretize, _c.rt, _c.rt_family = conc_pad(int(_c.note[0])), rt_pad_crop, fam_pad_crop
+for _c in CROP_CONTRACTS:
+    _c.rt, _c.rt_family = rt_crop, fam_crop
+
+
+# ------------------------------------------------------------------------------------------------
+# property-level lemmas (from the contract statements and the DFT axioms A5)
+# ------------------------------------------------------------------------------------------------
+
+
+def present(nu, n):
+    return AND(nu >= -(n / 2), nu < n - n / 2)
+
+
+def bin_of(nu, n):
+    return z3.If(nu >= 0, nu, nu + n)
+
+
+def lemma_bin_coordinates(ctx):
+    """origin' + j*sampling' is the mean of the old coordinates of block j (the closed form of the mean is proved by the
+    induction step below)."""
+    o, sm, f, j = Rl("o"), Rl("s"), I("f"), I("j")
+    fr, jr = z3.ToReal(f), z3.ToReal(j)
+    o2, s2 = o + (fr - 1) * HALF * sm, fr * sm
+    T = z3.Function("T", z3.IntSort(), z3.RealSort())  # T(f) = sum_{t<f} (o + (j f + t) s)
+    step = T(f + 1) == T(f) + (o + (jr * (fr + 1) + fr) * sm)
+    return [
+        ("block-centre = origin' + j*sampling' equals o + (j*f + (f-1)/2)*s", [f >= 1, j >= 0], o2 + jr * s2 == o + (jr * fr + (fr - 1) * HALF) * sm),
+        ("mean of an arithmetic progression (induction step): sum_{t<f+1}(c + t*s) = (f+1)*(c + f/2*s) from the same for f",
+         [f >= 0, Rl("S_f") == fr * (Rl("c") + (fr - 1) * HALF * sm)], Rl("S_f") + (Rl("c") + fr * sm) == (fr + 1) * (Rl("c") + fr * HALF * sm)),
+        ("mean of an arithmetic progression (base)", [], z3.RealVal(0) == 0 * (Rl("c") + (0 - 1) * HALF * sm)),
+        ("covered region = first (n//f)*f pixels; dropped = trailing n % f < f", [f >= 1, I("n") >= 0],
+         AND((I("n") / f) * f + I("n") % f == I("n"), I("n") % f >= 0, I("n") % f < f)),
+    ]
+
+
+def lemma_resample_identity(ctx):
+    """Equal length: every output bin holds the input bin with the same index, so H = G; ifftn(fftn x) = x (A5); scale 1."""
+    n, q = I("n"), I("q")
+    G = z3.Function("G", z3.IntSort(), z3.RealSort())
+    H = z3.Function("H", z3.IntSort(), z3.RealSort())
+    Y = z3.Function("Y", z3.IntSort(), z3.RealSort())
+    x = z3.Function("x", z3.IntSort(), z3.RealSort())
+    r = z3.Function("r", z3.IntSort(), z3.RealSort())
+    k, i = I("k"), I("i")
+    nu = signed_freq(q, n)
+    inr = lambda t: AND(t >= 0, t < n)
+    contract = forall(k, implies(inr(k), H(k) == z3.If(present(signed_freq(k, n), n), G(bin_of(signed_freq(k, n), n)), 0)))
+    a5_inverse = implies(forall(k, implies(inr(k), H(k) == G(k))), forall(i, implies(inr(i), Y(i) == x(i)), patterns=[Y(i)]))
+    res_c = forall(i, implies(inr(i), r(i) == z3.ToReal(n) / z3.ToReal(n) * Y(i)), patterns=[r(i)])
+    res_r = forall(i, implies(inr(i), r(i) == z3.ToReal(n) / z3.ToReal(n) * cm.RE(Y(i))), patterns=[r(i)])
+    re_real = forall(i, cm.RE(x(i)) == x(i), patterns=[x(i)])
+    return [
+        ("same length: placement is the identity on bins", [n >= 1, inr(q)], AND(present(nu, n), bin_of(nu, n) == q)),
+        ("same shape returns the data (complex)", [n >= 1, inr(q), contract, a5_inverse, res_c], r(q) == x(q)),
+        ("same shape returns the data (real input: Re x = x)", [n >= 1, inr(q), contract, a5_inverse, res_r, re_real], r(q) == x(q)),
+    ]
+
+
+def lemma_resample_mean(ctx):
+    """DC bin: signed frequency 0 is present for every n >= 1 and sits in bin 0 of input and output, so H[0] = G[0];
+    fftn: G[0] = N_in * mean(x); ifftn: mean(Y) = H[0] / N_out (A5); result = N_out/N_in * Y."""
+    n, m = I("n"), I("m")
+    G0, H0, meanx, meanY, meanR = Rl("G0"), Rl("H0"), Rl("mean_x"), Rl("mean_Y"), Rl("mean_result")
+    Nin, Nout = Rl("N_in"), Rl("N_out")
+    hyp = [Nin >= 1, Nout >= 1, G0 == Nin * meanx, meanY == H0 / Nout, H0 == G0]
+    return [
+        ("DC bin stays the DC bin for all odd/even length pairs", [n >= 1, m >= 1], AND(signed_freq(z3.IntVal(0), m) == 0, present(z3.IntVal(0), n), bin_of(z3.IntVal(0), n) == 0)),
+        ("mean preserved (complex)", hyp + [meanR == Nout / Nin * meanY], meanR == meanx),
+        ("mean of the inverse transform in terms of the input mean", hyp, meanY == (Nin / Nout) * meanx),
+        ("mean preserved (real input: Re is R-homogeneous, Re(mean x) = mean x)",
+         hyp + [meanY == (Nin / Nout) * meanx, meanR == Nout / Nin * cm.RE(meanY), cm.RE((Nin / Nout) * meanx) == (Nin / Nout) * cm.RE(meanx), cm.RE(meanx) == meanx], meanR == meanx),
+    ]
+
+
+def lemma_resample_linear(ctx):
+    """The placement (which input bin, or zero) depends on the shapes only; with fftn / ifftn / Re linear (A5) the result of
+    alpha*x1 + beta*x2 is alpha*result(x1) + beta*result(x2)."""
+    P = z3.Function("present", z3.IntSort(), z3.BoolSort())
+    K = z3.Function("bin", z3.IntSort(), z3.IntSort())
+    al, be, c = Rl("alpha"), Rl("beta"), Rl("scale")
+    G = [z3.Function(f"G{t}", z3.IntSort(), z3.RealSort()) for t in (1, 2, 3)]
+    H = [z3.Function(f"H{t}", z3.IntSort(), z3.RealSort()) for t in (1, 2, 3)]
+    Y = [z3.Function(f"Y{t}", z3.IntSort(), z3.RealSort()) for t in (1, 2, 3)]
+    k, q, i = I("k"), I("q"), I("i")
+    hyp = [forall(k, G[2](k) == al * G[0](k) + be * G[1](k), patterns=[G[2](k)])]
+    hyp += [forall(q, H[t](q) == z3.If(P(q), G[t](K(q)), 0), patterns=[H[t](q)]) for t in range(3)]
+    a5 = implies(forall(q, H[2](q) == al * H[0](q) + be * H[1](q)), forall(i, Y[2](i) == al * Y[0](i) + be * Y[1](i), patterns=[Y[2](i)]))
+    re_lin = cm.RE(al * Y[0](i) + be * Y[1](i)) == al * cm.RE(Y[0](i)) + be * cm.RE(Y[1](i))
+    return [
+        ("placed spectra combine linearly", hyp, H[2](q) == al * H[0](q) + be * H[1](q)),
+        ("result linear (complex)", hyp + [a5], c * Y[2](i) == al * (c * Y[0](i)) + be * (c * Y[1](i))),
+        ("result linear (real input, real coefficients)", hyp + [a5, re_lin], c * cm.RE(Y[2](i)) == al * (c * cm.RE(Y[0](i))) + be * (c * cm.RE(Y[1](i)))),
+    ]
+
+
+def lemma_up_down(ctx):
+    """n -> m >= n -> n: every bin q of the original spectrum is present in the up-sampled spectrum at the bin of the same
+    signed frequency, and the down-sampling placement reads it back from exactly there; the scale factors multiply to 1.
+    (For real input with even n the Nyquist bin is only mirrored on one side after padding: bounded clause.)"""
+    n, m, q = I("n"), I("m"), I("q")
+    nu = signed_freq(q, n)          # frequency of original bin q = frequency the down-sampling step asks for
+    qq = bin_of(nu, m)              # where the up-sampled spectrum keeps that frequency
+    hyp = [n >= 1, m >= n, q >= 0, q < n]
+    return [
+        ("the frequency of every original bin exists in the larger spectrum", hyp, AND(present(nu, m), qq >= 0, qq < m, signed_freq(qq, m) == nu)),
+        ("up-sampling put original bin q there", hyp, AND(present(signed_freq(qq, m), n), bin_of(signed_freq(qq, m), n) == q)),
+        ("down-sampling reads it back", hyp, AND(present(nu, m), bin_of(nu, m) == qq)),
+        ("scale factors multiply to one", [n >= 1, m >= 1], (z3.ToReal(m) / z3.ToReal(n)) * (z3.ToReal(n) / z3.ToReal(m)) == 1),
+    ]
+
+
+def lemma_pad_crop(ctx):
+    """From the pad and crop statements: cropping (before, -after) of the padded array is the original."""
+    n, M, j = I("n"), I("M"), I("j")
+    diff = M - n
+    fl, ce = diff / 2, -((-diff) / 2)
+    b, a = z3.If(fl > 0, fl, 0), z3.If(ce > 0, ce, 0)
+    P = n + b + a
+    hi = -a
+    stop = z3.If(hi > 0, hi, P + hi)
+    x = z3.Function("x", z3.IntSort(), z3.RealSort())
+    pad = z3.Function("padded", z3.IntSort(), z3.RealSort())
+    crop = z3.Function("cropped", z3.IntSort(), z3.RealSort())
+    k = I("k")
+    pad_post = forall(k, implies(AND(k >= b, k < b + n), pad(k) == x(k - b)), patterns=[pad(k)])
+    crop_post = forall(k, implies(AND(k >= 0, k < stop - b), crop(k) == pad(b + k)), patterns=[crop(k)])
+    return [
+        ("floor/ceil widths are non-negative and add up to max(0, M - n)", [n >= 0], AND(b >= 0, a >= 0, b + a == z3.If(diff > 0, diff, 0), a - b >= 0, a - b <= 1)),
+        ("(before, -after) satisfies the crop precondition and restores the length", [n >= 0], AND(b >= 0, b <= stop, stop <= P, stop - b == n)),
+        ("data restored", [n >= 0, j >= 0, j < n, pad_post, crop_post], crop(j) == x(j)),
+    ]
+
+
+LEMMAS = [
+    Lemma("bin-coordinates", lemma_bin_coordinates, uses=["Dataset.bin"]),
+    Lemma("resample-identity", lemma_resample_identity, uses=["Dataset.fourier_resample"]),
+    Lemma("resample-mean", lemma_resample_mean, uses=["Dataset.fourier_resample"]),
+    Lemma("resample-linear", lemma_resample_linear, uses=["Dataset.fourier_resample"]),
+    Lemma("resample-up-down", lemma_up_down, uses=["Dataset.fourier_resample"]),
+    Lemma("pad-crop-inverse", lemma_pad_crop, uses=["Dataset.pad", "Dataset.crop"]),
+]
+
+# ------------------------------------------------------------------------------------------------
+# negative axis indices (numpy convention: counted from the end) - one small contract per function
+# ------------------------------------------------------------------------------------------------
+
+NEG_LABEL = "negative axis index = axis counted from the end"
+
+
+def fr_neg_setup(ctx):
+    k, (d, (aform, axes, denoted), inplace) = choose(ctx, "neg_opt", NEG_OPTS)
+    o = ds_obj(ctx, d, min_len=1, is_real=True)
+    ms = [ctx.fresh(f"m{q}", "int") for q in range(len(denoted))]
+    cfg = NS(d=d, inplace=inplace, scenario="negative-axis", aform=aform, axes=axes, denoted=denoted, form="out_shape", ms=ms, fs=None, is_real=True, label=NEG_LABEL)
+    return NS(self=o, out_shape=tuple(ms), factors=None, axes=axes, modify_in_place=inplace, cfg=cfg, case="negative axis index")
+
+
+def fr_neg_conc(ev):
+    k = ev("neg_opt")
+    if k is None or not (0 <= k < len(NEG_OPTS)):
+        return None
+    d, (aform, axes, denoted), inplace = NEG_OPTS[k]
+    shape = [ev(f"n{i}", 3) for i in range(d)]
+    ms = [ev(f"m{q}", 2) for q in range(len(denoted))]
+    if any(not (1 <= n <= 16) for n in shape) or any(not (1 <= m <= 32) for m in ms):
+        return None
+    return dict(shape=shape, dtype="float64", axes=list(axes) if isinstance(axes, tuple) else axes, out_shape=ms, factors=None, inplace=inplace, seed=1)
+
+
+def fr_neg_value_error(s):
+    return OR(*[lift(m) < 1 for m in s.cfg.ms])
+
+
+C_FR_NEG = CaseContract(f"{DS}:Dataset.fourier_resample", setup=fr_neg_setup, ensures=fr_ensures, snapshot=snap, raises={ValueError: fr_neg_value_error},
+                        concretize=fr_neg_conc, rt=rt_resample, rt_family=lambda: fam_resample_small(True), note="negative axis indices (1..4-D)")
+
+
+def crop_neg_setup(ctx):
+    k, (d, (aform, axes, denoted), inplace) = choose(ctx, "neg_opt", NEG_OPTS)
+    o = ds_obj(ctx, d)
+    n = [lift(x) for x in o.fields["_array"].shape]
+    cw = [(ctx.fresh(f"lo{q}", "int"), ctx.fresh(f"hi{q}", "int")) for q in range(len(denoted))]
+    stop = {}
+    for q, a in enumerate(denoted):
+        lo, hi = cw[q][0].t, cw[q][1].t
+        st = z3.If(hi > 0, hi, n[a] + hi)
+        stop[a] = (lo, st)
+        ctx.assume(z3.And(lo >= 0, lo <= st, st <= n[a]))
+    crop_widths = tuple(cw) + (((ctx.fresh("lo_ignored", "int"), ctx.fresh("hi_ignored", "int")),) if isinstance(axes, int) else ())
+    cfg = NS(d=d, scenario="negative-axis", inplace=inplace, axes=axes, denoted=denoted, stop=stop, label=NEG_LABEL)
+    return NS(self=o, crop_widths=crop_widths, axes=axes, modify_in_place=inplace, cfg=cfg, case="negative axis index")
+
+
+def crop_neg_conc(ev):
+    k = ev("neg_opt")
+    if k is None or not (0 <= k < len(NEG_OPTS)):
+        return None
+    d, (aform, axes, denoted), inplace = NEG_OPTS[k]
+    shape = [ev(f"n{i}", 3) for i in range(d)]
+    cw = [[ev(f"lo{q}", 0), ev(f"hi{q}", 0)] for q in range(len(denoted))]
+    if any(not (0 <= n <= 24) for n in shape) or any(abs(v) > 24 for p in cw for v in p):
+        return None
+    if isinstance(axes, int):
+        cw = cw + [[0, 0]]
+    return dict(shape=shape, dtype="float64", axes=list(axes) if isinstance(axes, tuple) else axes, crop_widths=cw, inplace=inplace, seed=1)
+
+
+C_CROP_NEG = CaseContract(f"{DS}:Dataset.crop", setup=crop_neg_setup, ensures=crop_ensures, snapshot=snap, raises={ValueError: lambda s: False},
+                          concretize=crop_neg_conc, rt=rt_crop, rt_family=lambda: fam_crop(True), note="negative axis indices (1..4-D)")
+
+# ------------------------------------------------------------------------------------------------
+# bounded stand-ins (finite input families on the REAL code; never counted as proved)
+# ------------------------------------------------------------------------------------------------
+
+DTYPES = ["uint8", "uint16", "int16", "int32", "int64", "bool", "float32", "float64", "complex64", "complex128"]
+
+
+def fam_bin_dtypes(tier="quick", seed=0):
+    """dtype sweep: narrow integer types are saturated, so any accumulator narrower than the platform integer wraps."""
+    shapes = [[7], [8], [5, 6], [6, 9], [3, 4, 5], [2, 3, 4, 5]] + ([[16, 17], [4, 6, 9], [3, 3, 4, 6]] if tier == "thorough" else [])
+    k = 0
+    for shape in shapes:
+        d = len(shape)
+        opts = axes_options(d, negative=False)
+        for dt in DTYPES:
+            for j in range(6 if tier == "quick" else 14):
+                k += 1
+                form, axes, denoted = opts[(k * 7 + j * 3 + k // len(opts)) % len(opts)]
+                fs = [((k + 2 * q + j) % 4) + 1 for q in range(len(denoted))]
+                factors = fs if (k + j) % 3 else (fs[0] if fs else 2)
+                yield dict(shape=shape, dtype=dt, axes=list(axes) if isinstance(axes, tuple) else axes, factors=factors,
+                           reducer="sum" if (k + j) % 2 else "mean", inplace=(k + j) % 4 == 0, seed=seed + k)
+
+
+def fam_resample_dtypes(tier="quick", seed=0):
+    shapes = [[6], [7], [4, 5], [6, 6], [3, 4, 5], [2, 3, 3, 4]] + ([[12, 9], [5, 8, 6]] if tier == "thorough" else [])
+    k = 0
+    for shape in shapes:
+        d = len(shape)
+        opts = axes_options(d, negative=False)
+        for dt in ["uint8", "int16", "int32", "float32", "float64", "complex64", "complex128"]:
+            for j in range(5 if tier == "quick" else 12):
+                k += 1
+                form, axes, denoted = opts[(k * 7 + j * 3 + k // len(opts)) % len(opts)]
+                ms = []
+                for q, ax in enumerate(denoted):
+                    c = _resample_lens(shape[ax])
+                    ms.append(c[(k + 2 * q + j) % len(c)])
+                yield dict(shape=shape, dtype=dt, axes=list(axes) if isinstance(axes, tuple) else axes, out_shape=ms, factors=None,
+                           inplace=(k + j) % 3 == 0, seed=seed + k)
+
+
+def rt_resample_laws(inp):
+    """Linearity, and up-sampling followed by down-sampling for signals WITHOUT Nyquist-frequency content (real and complex)."""
+    import numpy as np
+    from quantem.core.datastructures.dataset import Dataset
+
+    rng = np.random.default_rng(inp["seed"])
+    shape, up = tuple(inp["shape"]), tuple(inp["up"])
+    is_real = inp["real"]
+
+    def signal():
+        x = rng.normal(size=shape) + (0 if is_real else 1j * rng.normal(size=shape))
+        F = np.fft.fftn(x)
+        for ax, n in enumerate(shape):
+            if n % 2 == 0:  # remove the Nyquist bin of every even axis
+                sl = [slice(None)] * len(shape)
+                sl[ax] = n // 2
+                F[tuple(sl)] = 0
+        y = np.fft.ifftn(F)
+        return y.real.copy() if is_real else y
+
+    a, b = signal(), signal()
+    pr = []
+    da = Dataset.from_array(a.copy())
+    u = da.fourier_resample(out_shape=up)
+    back = u.fourier_resample(out_shape=shape)
+    err = float(np.abs(back.array - a).max())
+    if back.array.shape != a.shape or err > 1e-9:
+        pr.append(f"up {shape}->{up} then down: max error {err:.3g}")
+    if not (np.allclose(back.origin, da.origin, atol=1e-10) and np.allclose(back.sampling, da.sampling, atol=1e-12)):
+        pr.append(f"up then down: origin/sampling {back.origin.tolist()}/{back.sampling.tolist()} not restored")
+    al, be = 1.7, -0.6
+    out = tuple(inp["out"])
+    r = lambda x: Dataset.from_array(np.array(x)).fourier_resample(out_shape=out).array
+    lin = float(np.abs(r(al * a + be * b) - (al * r(a) + be * r(b))).max())
+    if lin > 1e-9:
+        pr.append(f"not linear: |R(ax+by) - aR(x) - bR(y)| = {lin:.3g} for {shape}->{out}")
+    return dict(violated=bool(pr), observed="; ".join(pr) or "ok", expected="up->down returns the Nyquist-free signal; resampling is linear")
+
+
+def fam_resample_laws(tier="quick", seed=0):
+    k = 0
+    for shape in ([4], [5], [8], [4, 6], [5, 4], [3, 4, 5], [2, 4, 3, 4]):
+        for j in range(5 if tier == "quick" else 15):
+            for is_real in (True, False):
+                k += 1
+                up = [n + ((k + q + j) % 4) + (0 if j else 0) for q, n in enumerate(shape)]
+                out = [max(1, n + ((k * 3 + q + j) % 6) - 2) for q, n in enumerate(shape)]
+                yield dict(shape=shape, up=up, out=out, real=is_real, seed=seed + k)
+
+
+def _klass(inp, res):
+    """Failure class of a bounded failure (known findings are matched on it, so a different failure stays a violation)."""
+    obs = str(res.get("observed", ""))
+    if inp.get("axes") == [] and "UFuncTypeError" in obs and inp.get("dtype") in ("uint8", "uint16", "int16", "int32", "int64", "bool"):
+        return "empty axis selection with integer dtype: in-place scaling cannot cast"
+    return f"{inp.get('dtype', 'any')}: {obs.split(';')[0][:60]}"
+
+
+BOUNDED = [
+    Bounded.from_rt("bin: dtype sweep against int64/float64/complex128 block oracle", rt_bin, fam_bin_dtypes,
+                    "shapes <= 9 per axis, 1..4-D, 10 dtypes (saturated narrow ints), axis forms/subsets, factors 1..4 (incl. non-dividing), sum/mean, both forms", klass=_klass),
+    Bounded.from_rt("fourier_resample: dtype/shape sweep against explicit-DFT signed-frequency oracle", rt_resample, fam_resample_dtypes,
+                    "shapes <= 7 per axis, 1..4-D, 7 dtypes, axis forms/subsets, output lengths 1..2n+1 (odd<->even, up and down)", klass=_klass),
+    Bounded.from_rt("fourier_resample: small shapes x all output lengths", rt_resample, lambda: fam_resample_small(False),
+                    "1-D/2-D: all combinations of 9 output lengths per axis; 3-D/4-D: 4 per axis selection; float64/complex128"),
+    Bounded.from_rt("fourier_resample: up->down exactness without Nyquist content (real and complex), linearity", rt_resample_laws, fam_resample_laws,
+                    "shapes <= 8 per axis, 1..4-D, up by 0..3, random band-limited signals with the Nyquist bin removed"),
+    Bounded.from_rt("pad(output_shape / widths) then crop((before, -after)) returns the original", rt_pad_crop, fam_pad_crop,
+                    "shapes <= 5 per axis, 1..4-D, 8 dtypes, deltas -2..3 (odd/even), constant/edge/reflect modes, in-place and copying"),
+    Bounded.from_rt("crop: axis forms x window positions", rt_crop, lambda: fam_crop(False), "shapes <= 6 per axis, 1..4-D, 5 windows per axis selection"),
+    Bounded.from_rt("bin: small shapes x axis forms x factors", rt_bin, lambda: fam_bin_small(False), "shapes <= 6 per axis, factors 1..4, float64"),
+]
+
+CONTRACTS = FR_CONTRACTS + list(reversed(BIN_CONTRACTS)) + PAD_CONTRACTS + CROP_CONTRACTS + [C_BIN_NEG, C_FR_NEG, C_CROP_NEG]
+
+TRUSTED = [
+    "A5 DFT axioms: fftn / ifftn are linear operators over the listed axes, ifftn(fftn x) = x, fftn(x)[0] = sum x, mean(ifftn H) = H[0]/N; fftshift / ifftshift are the index rotations by n//2 (numpy documentation); the FFT implementation itself is out of reach",
+    "A6 numpy: basic slicing, C-order reshape that splits an axis (new[i,j] = old[i*b+j], size condition proved per call), np.sum over axes = iterated sum, np.pad (interior placement, zero border in constant mode), ndarray.real, astype/copy; pyvc/lib/c06_models.py",
+    "Sigma regrouping: sum over all output pixels of the block sums = sum over the covered region (finite-sum reindexing j*f+t <-> i; stated, checked at run time by the bounded bin checks)",
+    "Dataset.copy returns an independent Dataset with equal array / origin / sampling / units (its contract is used at the call sites; its body is verified under C03, not here)",
+    "abstract complex scalars: spectrum values are elements of an R-vector space encoded in sort Real; only 0, +, real scaling and the R-linear idempotent map Re are applied to them",
+    "induction principle for the arithmetic-progression mean (base and step are proved)",
+    "pyvc engine (AST interpreter, slice/index semantics, value-level merge of pure conditional expressions), z3, cvc5",
+]
+ASSUMPTIONS = [
+    "A1 floats are reals (rounding ignored; dtype effects only in the bounded dtype sweeps)",
+    "A2 fixed-width integers are mathematical (accumulator width / wrap-around only in the bounded dtype sweep)",
+    "A3 int(round(n*factor)) is any integer within 1/2 of n*factor",
+    "enumerated: ndim 1..4; axis selections None / int / every subset (sorted tuple) / reversed full tuple / empty; bin: scalar factor form on all selections for 1-D/2-D and on None/int/full from 3-D; "
+    "fourier_resample: all <,=,> length relations on every selected axis for every selection (4-D explicit full tuple covered by None), real/complex crossed for 1-D/2-D and alternated from 3-D, "
+    "factor / in-place forms on all selections (1-D), three selections (2-D), one int axis (3-D/4-D); everything else (lengths, factors, output lengths, pad widths, windows, values, origin, sampling) symbolic",
+    "axes are distinct (a subset); fourier_resample requires every length >= 1; crop is stated for its documented use 0 <= min <= max <= n or max <= 0 counted from the end",
+    "complex input to bin / pad / crop is covered componentwise by the real proof (the operations are R-linear and act on values only) and by the bounded dtype sweeps",
+    "real-input Nyquist clause of up->down (Hermitian symmetry after zero padding) is bounded only",
+]
+EXPLANATION = ("VCs generated from the real source of Dataset.bin / fourier_resample (incl. nested _shift_center_index) / pad / crop with symbolic lengths, factors, "
+               "output lengths, widths and data; data laws as index-function equalities (block sums as Sigma-terms, spectrum placement by signed frequency over the trusted DFT axioms); "
+               "conservation laws (block-centre coordinates, identity, mean, linearity, up->down, pad->crop) as lemmas from the contract statements")
